@@ -632,6 +632,18 @@ theorem accept_without_init_try_strands (n : Nat) :
     have : lstep true false ⟨[7], false, false, true, [], []⟩ .poll = ⟨[7], false, false, true, [], []⟩ := by decide
     rw [this]; exact ih
 
+/-- ★ net/connect, synchronous part: `connect()` is retried while it is interrupted; the first other answer decides — success
+    or EINPROGRESS registers the fiber for the WRITE event (`connect_ends_exactly_at_first_nonquiet_event` takes over) and
+    closes nothing; any other error raises and closes the stream, hence the descriptor, EXACTLY ONCE (the stream owns it;
+    a second `close` would hit a reused descriptor number). -/
+theorem connect_call_exact (pre post : List ConnAns) (a : ConnAns) (hpre : ∀ x ∈ pre, x = .eintr) (ha : a ≠ .eintr) :
+    connectCall (pre ++ a :: post) =
+      ⟨(match a with | .err e => .raised e | _ => .registered), pre.length + 1, (match a with | .err _ => 1 | _ => 0)⟩ :=
+  connectCall_first pre post a hpre ha
+
+example : connectCall [.eintr, .eintr, .err 111, .ok] = ⟨.raised 111, 3, 1⟩ := by decide
+example : connectCall [.eintr, .inprogress] = ⟨.registered, 2, 0⟩ := by decide
+
 -- non-vacuity
 example : (runAccept [0, 6] [3] true [(.init, .fail 11), (.read, .conn 9), (.mark, .conn 4), (.read, .conn 10), (.close, .fail 0)]).handlers = [9, 10] := by decide
 example : (runAccept [0, 6] [3] false [(.init, .fail 11), (.hup, .conn 4), (.read, .conn 9), (.read, .conn 10)]) = ⟨.accepted 9, [], [9], 2, 3⟩ := by decide
